@@ -118,3 +118,39 @@ func VerifH_C18_omit() {
 	}
 	vCover("C18.omit.zero", size == 0)
 }
+
+// The client's encoder table against the server's SETTINGS_HEADER_TABLE_SIZE:
+// the handshake's SETTINGS frame announces 0, 100, 4096 or 8192 octets (or
+// does not mention it), a later frame announces 0, 50 or 4096; the request that
+// follows is encoded with a table no larger than the latest value.
+//
+//verif:harness prop=C18,C04 unwind=64 timeout=300
+func VerifH_C18_handshake() {
+	first := [5]int64{-1, 0, 100, 4096, 8192}[vRange(0, 4)]
+	later := [3]uint32{0, 50, 4096}[vRange(0, 2)]
+	var pl []byte
+	if first >= 0 {
+		pl = []byte{0, 1, byte(first >> 24), byte(first >> 16), byte(first >> 8), byte(first)}
+	}
+	c := vNewConn()
+	c.serverS = Settings{}
+	c.br = vNewReader(vFrame(0x4, 0x0, 0, pl))
+	bw, _ := vNewWriter()
+	c.bw = bw
+	c.c = &vConn{done: make(chan struct{})}
+	vAssert(c.doHandshake() == nil, "C18.handshake.ok")
+	st := &Settings{}
+	st.Reset()
+	vAssert(st.Read([]byte{0, 1, byte(later >> 24), byte(later >> 16), byte(later >> 8), byte(later)}) == nil, "C18.handshake.settings-decode")
+	c.handleSettings(st)
+	req, res := &fasthttp.Request{}, &fasthttp.Response{}
+	req.Header.SetMethod("GET")
+	req.URI().SetHost("h")
+	req.URI().SetPath("/x")
+	req.URI().SetScheme("https")
+	ctx := &Ctx{Request: req, Response: res, Err: make(chan error, 1)}
+	vAssert(c.writeRequest(ctx) == nil, "C18.handshake.request-written")
+	vAssert(c.enc.maxTableSize <= later, "C18.handshake.encoder-table-within-the-latest-announced-size")
+	vAssert(c.enc.DynamicSize() <= later, "C18.handshake.encoder-table-content-within-it")
+	vCover("C18.handshake.large-then-zero", first == 8192 && later == 0)
+}
